@@ -35,6 +35,7 @@ import (
 type impTarget struct {
 	dir, file, ns, out string
 	funcs              []string
+	elem               string   // name of a type treated as an ABSTRACT element type F with operations mul / one / inv (field level)
 	abstract           []string // package-local functions called as ABSTRACT parameters (hash arguments dropped); their source text is
 	// emitted as `abstractSrc` so that an edit of them breaks the proofs that pin it
 }
@@ -43,6 +44,7 @@ var impTargets = []impTarget{
 	{dir: "fiat-shamir", file: "transcript.go", ns: "FiatShamir", out: "Imp/Transcript.lean",
 		funcs: []string{"NewTranscript", "Bind", "ComputeChallenge"}},
 	{dir: "internal/parallel", file: "execute.go", ns: "Parallel", out: "Imp/Execute.lean", funcs: []string{"Execute"}},
+	{dir: "ecc/bn254/fr", file: "element.go", ns: "Exp_bn254_fr", out: "Imp/Exp_bn254_fr.lean", funcs: []string{"Exp"}, elem: "Element"},
 	{dir: "field/hash", file: "hashutils.go", ns: "HashUtils", out: "Imp/ExpandMsgXmd.lean", funcs: []string{"min", "ExpandMsgXmd"}},
 	{dir: "accumulator/merkletree", file: "verify.go", ns: "MerkleVerify", out: "Imp/MerkleVerify.lean", funcs: []string{"VerifyProof"},
 		abstract: []string{"leafSum", "nodeSum", "sum"}},
@@ -161,9 +163,15 @@ func (p *impPkg) goType(e ast.Expr) *ity {
 		if _, ok := p.structs[v.Name]; ok {
 			return &ity{k: "struct", name: v.Name}
 		}
+		if p.tg.elem != "" && v.Name == p.tg.elem {
+			return &ity{k: "elem"}
+		}
 	case *ast.SelectorExpr:
 		if id, ok := v.X.(*ast.Ident); ok && id.Name == "hash" && v.Sel.Name == "Hash" {
 			return tyHash
+		}
+		if id, ok := v.X.(*ast.Ident); ok && id.Name == "big" && v.Sel.Name == "Int" {
+			return &ity{k: "bigint"}
 		}
 		if id, ok := v.X.(*ast.Ident); ok && id.Name == "sync" && v.Sel.Name == "WaitGroup" {
 			return &ity{k: "waitgroup"}
@@ -196,8 +204,10 @@ func (p *impPkg) goType(e ast.Expr) *ity {
 			return &ity{k: "map", elem: p.goType(v.Value)}
 		}
 	case *ast.StarExpr:
-		if t := p.goType(v.X); t.k == "struct" {
+		if t := p.goType(v.X); t.k == "struct" || t.k == "elem" {
 			return &ity{k: "ptr", elem: t}
+		} else if t.k == "bigint" { // *big.Int is read as an exact integer VALUE (mutating methods only on fresh objects)
+			return t
 		}
 	case *ast.Ellipsis:
 		return &ity{k: "slice", elem: p.goType(v.Elt)}
@@ -217,6 +227,10 @@ func (p *impPkg) lty(t *ity, qual bool) string {
 		return "Option " + p.ltyA(t.elem, qual)
 	case "absfn":
 		return t.name
+	case "elem":
+		return "F"
+	case "bigint":
+		return "Int"
 	case "bool":
 		return "Bool"
 	case "string":
@@ -488,7 +502,7 @@ func (p *impPkg) translateFunc(name string) string {
 		params = append(params, "("+lname(f.recv)+" : "+p.lty(t, false)+")")
 	}
 	for _, fl := range fd.Type.Params.List {
-		if _, ok := fl.Type.(*ast.StarExpr); ok {
+		if _, ok := fl.Type.(*ast.StarExpr); ok && p.goType(fl.Type).k != "bigint" {
 			p.die(fl, "pointer parameter (outside the subset: only the receiver is passed by reference)")
 		}
 		t0 := p.paramType(fl.Type)
@@ -522,6 +536,11 @@ func (p *impPkg) translateFunc(name string) string {
 			}
 			f.results = append(f.results, p.paramType(fl.Type))
 		}
+	}
+	if f.recv != "" && f.recvTy.k == "elem" && len(f.results) == 1 && f.results[0].k == "elem" {
+		// `func (z *Element) M(…) *Element`: the methods of the element type return their receiver; the def returns the new value of z
+		f.retSelf = true
+		f.results = nil
 	}
 	u := &iuses{}
 	c := &ictx{uses: u,
@@ -572,6 +591,9 @@ func (p *impPkg) translateFunc(name string) string {
 func runImp() {
 	for _, tg := range impTargets {
 		impAbsParams, impAbsArgs = "", ""
+		if tg.elem != "" {
+			impAbsParams, impAbsArgs = " {F : Type} (mul : F → F → F) (one : F) (inv : F → F)", " mul one inv"
+		}
 		out := filepath.Join(outDir, tg.out)
 		dieHook = func() { os.Remove(out) } // a failed translation must not leave the previous run's file behind
 		p := loadImp(tg)
@@ -580,6 +602,9 @@ func runImp() {
 		b.WriteString("   Statement-by-statement translation of imperative Go; the value vocabulary and its semantics: Model/GoImp.lean. -/\n")
 		b.WriteString("import GnarkVerif.Model.GoImp\n\nset_option linter.unusedVariables false\n\n")
 		fmt.Fprintf(&b, "namespace GV.Gen.Imp.%s\nopen GV.GoImp\n\n", tg.ns)
+		if tg.elem != "" { // a field package: only the targeted functions matter
+			p.errOrd, p.order = nil, nil
+		}
 		for _, e := range p.errOrd {
 			fmt.Fprintf(&b, "/-- `var %s = errors.New(%s)` -/\n@[reducible] def %s : Err := Err.sentinel %q\n", e, strings.ReplaceAll(p.errVars[e], "-/", "- /"), e, e)
 		}
